@@ -331,7 +331,9 @@ async fn run_scenario(sc: Scenario, seed: u64) -> Outcome {
         keepalive_timeout: OptionalDuration::NONE,
         max_retry_count: sc.max_retry_count,
         max_retry_interval: sc.max_retry_interval,
-        handshake_timeout: OptionalDuration::from_secs(1),
+        // scenarios named hs-none-*: no handshake time-out at all (legal: 0 on the command line), so that whatever the client
+        // guards with the wrong one of its two time-outs is not guarded
+        handshake_timeout: if sc.name.starts_with("hs-none-") { OptionalDuration::NONE } else { OptionalDuration::from_secs(1) },
         channel_timeout: OptionalDuration::from_secs(1),
         ..Default::default()
     }));
@@ -483,6 +485,10 @@ fn scenarios(rng: &mut Rng64, thorough: bool) -> Vec<Scenario> {
         Scenario { name: "orderly-close", script: vec![Act::ForwardWsClose(300), Act::Healthy], max_retry_count: 0, max_retry_interval: 400, converse_at: None, udp_after_ms: Some(900), expect_exit: None, observe_ms: 4500 },
         Scenario { name: "stream-request-timeout", script: vec![Act::ForwardBlackhole(150), Act::Healthy], max_retry_count: 0, max_retry_interval: 400, converse_at: Some(250), udp_after_ms: None, expect_exit: None, observe_ms: 4500 },
         // the tunnel is lost while a stream request is outstanding (Connect sent, never answered): the request is served by the next connection
+        // the request is parked by a stream-request time-out; the next server lets the upgrade through and then stays silent with the
+        // connection open: the re-issued request must time out after channel_timeout (1 s) as well - also when the handshake time-out
+        // is disabled - and be served by the third connection
+        Scenario { name: "hs-none-parked-request-on-silent-server", script: vec![Act::ForwardBlackhole(150), Act::UpgradeThenSwallowCut(9000), Act::Healthy], max_retry_count: 0, max_retry_interval: 400, converse_at: Some(250), udp_after_ms: None, expect_exit: None, observe_ms: 6000 },
         Scenario { name: "lost-with-request-outstanding", script: vec![Act::ForwardSwallowCut(200, 400), Act::Healthy], max_retry_count: 0, max_retry_interval: 400, converse_at: Some(350), udp_after_ms: None, expect_exit: None, observe_ms: 3500 },
         // a parked request, and connections that complete the upgrade but die while that request is retried: every one of them
         // was a successful connection, so every delay is the shortest one
@@ -706,6 +712,10 @@ fn judge(st: &mut Stats, sc: &Scenario, outs: &[Outcome], seed: u64) {
     }
 }
 
+fn startup_race(o: &Outcome) -> bool {
+    matches!(&o.exit, Some((dt, e)) if e == "RemoteHandlerExited" && *dt < Duration::from_millis(100) && o.attempts.len() <= 1 && matches!(&o.conv, None | Some(Err(_))))
+}
+
 pub fn run(p: &Params) -> (Stats, &'static str) {
     let mut st = Stats::new();
     st.engine("E2E", 1);
@@ -721,8 +731,18 @@ pub fn run(p: &Params) -> (Stats, &'static str) {
         for r in 0..repeats {
             let rt = tokio::runtime::Builder::new_multi_thread().worker_threads(2).enable_all().build().expect("rt");
             let seed = mix(p.seed, (i * 16 + r) as u64);
-            let o = rt.block_on(run_scenario(sc.clone(), seed));
+            let mut o = rt.block_on(run_scenario(sc.clone(), seed));
             rt.shutdown_background();
+            // a local port taken by another process between probing and binding: nothing of the script happened, run it again
+            for _ in 0..3 {
+                if !startup_race(&o) {
+                    break;
+                }
+                st.count("runs_repeated_after_a_start_up_port_race", 1);
+                let rt = tokio::runtime::Builder::new_multi_thread().worker_threads(2).enable_all().build().expect("rt");
+                o = rt.block_on(run_scenario(sc.clone(), seed));
+                rt.shutdown_background();
+            }
             st.evaluations += 1;
             if o.attempts.iter().any(|a| !matches!(a.2, Act::Healthy)) {
                 st.nontrivial(mix(crate::util::fnv(sc.name.as_bytes()), r as u64));
